@@ -16,7 +16,6 @@ import (
 	"sync"
 	"sync/atomic"
 	"time"
-	"verifharness/gq/refluni"
 
 	"github.com/uhn/ggql/pkg/ggql"
 
@@ -235,56 +234,55 @@ func cmdReplay(args []string) {
 }
 
 // registerDuringFirstRequest (C02: "with or without explicit type/field registration"): Root.RegisterField for a field
-// while the first request that ever uses that field is on its way, on another goroutine.  Whichever comes first, once
-// both have returned (RegisterField without an error) the field is resolved from the registered member: the lazy
-// binding by name checks and binds in one critical section (LazyBind.tla: rr_check .. rf_write under the field's
-// mutex), so it can not overwrite a registration that came in between.  The request announces itself through a field
-// resolved just before the one in question; the registering goroutine then waits a varying number of spins.
+// arrives while the first request that ever uses that field is being resolved on another goroutine.  Whichever comes
+// first, once both have returned (RegisterField without an error) the field is resolved from the registered member: the
+// lazy binding by name checks and binds in ONE critical section (LazyBind.tla: rr_check .. rf_write under the field's
+// mutex; a registration is a visit of its own under the same mutex), so it cannot overwrite a registration.
+//
+// The schedule is forced, not hoped for.  At the request's rr_check point (inside the field's mutex, the field still
+// unbound) the registering goroutine is started and the request then dawdles for a few milliseconds: the registrar
+// blocks on the mutex for more than a millisecond, which puts a sync.Mutex into starvation mode - the next Unlock hands
+// the mutex to the registrar directly.  Code that unlocks between its check and its bind lets the registration in right
+// there; code that holds the mutex throughout lets it in afterwards.
 func registerDuringFirstRequest(u *gq.Universe, rep *vh.Report) {
 	p1, ok := u.Data["p1"]
 	if !ok || u.Types["P"] == nil {
 		return
 	}
 	want := p1["say"].S
-	iters := 3000
-	bad := 0
-	var sink int32
-	for it := 0; it < iters && bad == 0; it++ {
-		var progress int32
+	for it := 0; it < 12; it++ {
 		w, err := gq.NewColdRegisteredWorld(u, nil)
 		if err != nil {
 			vh.Die("%s", err)
 		}
-		refluni.Marker = func() { atomic.StoreInt32(&progress, 1) } // (the field resolved right before the one in question)
+		// (the world's own tables are filled first; P.say stays unused)
+		_ = w.Root.ResolveString("{ pv { name } }", "", nil)
+		var armed int32 = 1
+		startB := make(chan struct{})
+		old := ggql.VerifHook
+		ggql.VerifHook = func(point string, ref interface{}) {
+			if point != "rr_check" {
+				return
+			}
+			if fd, _ := ref.(*ggql.FieldDef); fd != nil && fd.Name() == "say" && fd.VerifBinding() == "none" && atomic.CompareAndSwapInt32(&armed, 1, 2) {
+				close(startB)
+				time.Sleep(time.Duration(3+it%3) * time.Millisecond)
+			}
+		}
 		var regErr error
 		done := make(chan struct{})
 		go func() {
 			defer close(done)
-			for atomic.LoadInt32(&progress) == 0 { // (busy: a woken goroutine would come too late)
-			}
-			for d := (it * 7) % 400; 0 < d; d-- {
-				atomic.AddInt32(&sink, 1)
-			}
+			<-startB
 			regErr = w.Root.RegisterField("P", "say", "Say2")
 		}()
-		// (the world's own tables are filled by one goroutine first; P.say and P.code stay unused)
-		_ = w.Root.ResolveString("{ pv { name } }", "", nil)
-		var wg sync.WaitGroup
-		gate := make(chan struct{})
-		for g := 0; g < 8; g++ { // several first requests at once: whatever they do about the unbound field is spread over a longer time
-			wg.Add(1)
-			go func() {
-				defer wg.Done()
-				<-gate
-				_ = w.Root.ResolveString("{ pv { code say } }", "", nil)
-			}()
+		_ = w.Root.ResolveString("{ pv { say } }", "", nil)
+		if atomic.CompareAndSwapInt32(&armed, 1, 3) { // (the point was never passed: nothing to wait for)
+			close(startB)
 		}
-		close(gate)
-		wg.Wait()
-		atomic.StoreInt32(&progress, 1)
 		<-done
-		refluni.Marker = nil
-		rep.Case(fmt.Sprintf("register-during-first-request|%d", (it*7)%400), true)
+		ggql.VerifHook = old
+		rep.Case(fmt.Sprintf("register-during-first-request|%d", it), true)
 		rep.Class("register-during-first-request")
 		if regErr != nil {
 			continue
@@ -297,10 +295,64 @@ func registerDuringFirstRequest(u *gq.Universe, rep *vh.Report) {
 			}
 		}
 		if got != want {
-			bad++
 			rep.Mismatch(vh.Mismatch{
-				Case: map[string]interface{}{"fam": "regrace", "request": "{ pv { code say } } with RegisterField(P, say, Say2) on another goroutine, then { pv { say } }", "strategy": "refl", "aspect": "data", "iteration": it},
+				Case: map[string]interface{}{"fam": "regrace", "request": "{ pv { say } } with RegisterField(P, say, Say2) arriving at the field's mutex while the request holds it, then { pv { say } }", "strategy": "refl", "aspect": "data", "iteration": it},
 				What: fmt.Sprintf("data: RegisterField(\"P\", \"say\", \"Say2\") returned nil while the first request using the field was resolved; afterwards say is %q, the registered member holds %q", got, want)})
+			return
+		}
+	}
+	// The forced schedule lets the registration in only where the request does not hold the mutex at its check at all, or
+	// gives it up for long.  A gap of some nanoseconds between an unlock and the next lock is not forced by it (an Unlock
+	// hands the mutex over directly only after a waiter has failed once): free-running tries with a busy-waiting
+	// registrar and a sweep of small delays hit such a gap now and then - a chance, not a decision.
+	var sink int32
+	for it := 0; it < 2000; it++ {
+		var progress int32
+		w, err := gq.NewColdRegisteredWorld(u, nil)
+		if err != nil {
+			vh.Die("%s", err)
+		}
+		_ = w.Root.ResolveString("{ pv { name } }", "", nil)
+		old := ggql.VerifHook
+		ggql.VerifHook = func(point string, ref interface{}) {
+			if fd, _ := ref.(*ggql.FieldDef); point == "rr_check" && fd != nil && fd.Name() == "say" && fd.VerifBinding() == "none" {
+				// the registrar sets off now and arrives at the mutex while it is still held here: a goroutine that
+				// finds a mutex locked spins for a moment before it goes to sleep, and takes it the instant it is free
+				atomic.StoreInt32(&progress, 1)
+				for d := 20 + (it*13)%300; 0 < d; d-- {
+					atomic.AddInt32(&sink, 1)
+				}
+			}
+		}
+		var regErr error
+		done := make(chan struct{})
+		go func() {
+			defer close(done)
+			for atomic.LoadInt32(&progress) == 0 {
+			}
+			regErr = w.Root.RegisterField("P", "say", "Say2")
+		}()
+		_ = w.Root.ResolveString("{ pv { say } }", "", nil)
+		atomic.StoreInt32(&progress, 1)
+		<-done
+		ggql.VerifHook = old
+		rep.Case(fmt.Sprintf("register-during-first-request|free|%d", (it*13)%300), true)
+		rep.Class("register-during-first-request")
+		if regErr != nil {
+			continue
+		}
+		res := w.Root.ResolveString("{ pv { say } }", "", nil)
+		got := ""
+		if d, _ := res["data"].(map[string]interface{}); d != nil {
+			if pv, _ := d["pv"].(map[string]interface{}); pv != nil {
+				got, _ = pv["say"].(string)
+			}
+		}
+		if got != want {
+			rep.Mismatch(vh.Mismatch{
+				Case: map[string]interface{}{"fam": "regrace", "request": "{ pv { say } } with RegisterField(P, say, Say2) on another goroutine, then { pv { say } }", "strategy": "refl", "aspect": "data", "iteration": it},
+				What: fmt.Sprintf("data: RegisterField(\"P\", \"say\", \"Say2\") returned nil while the first request using the field was resolved; afterwards say is %q, the registered member holds %q", got, want)})
+			return
 		}
 	}
 }
